@@ -557,9 +557,41 @@ def parse_obs(out):
     return p, r
 
 
+def h2_oracle(line, out):
+    """HTTP/2 DATA: the request body is the concatenation of the frames' data (padding removed), whatever
+    the segmentation of the byte stream; a well-formed body is accepted without RST_STREAM"""
+    t = line.split(" ")
+    m = re.match(r"h2data state=(\w+) len=(-?\d+) rst=(\d+) goaway=(\d+) rq=(\d+) out=(\S+)$", out)
+    if not m:
+        return "h2 data: unreadable observation || " + out[:60]
+    cl, body = int(t[1]), gen_body(t[2])
+    frames = [[int(x) for x in f.split(".")] for f in t[3].split(",")]
+    got = C.unhx(m.group(6))
+    if got != body[:len(got)]:
+        return "h2 data: request body contains bytes the client did not send as data || at offset %d" % next(
+            i for i in range(len(got)) if i >= len(body) or got[i] != body[i])
+    total = min(sum(f[0] for f in frames), len(body))
+    wellformed = all(f[2] == 0 for f in frames[:-1]) and frames[-1][2] == 1 and cl in (-1, total) \
+        and all(f[1] < 256 for f in frames)
+    if wellformed:
+        if int(m.group(3)) or int(m.group(4)):
+            return "h2 data: well-formed request body answered with RST_STREAM / GOAWAY"
+        if len(got) != total or int(m.group(2)) != total:
+            return "h2 data: request body length differs from the data sent || %d / %s of %d" % (len(got), m.group(2), total)
+        if int(m.group(5)):
+            return "h2 data: frame bytes left unconsumed"
+        if m.group(1) != "hcr":
+            return "h2 data: END_STREAM did not half-close the stream"
+    elif cl >= 0 and len(got) > cl:
+        return "h2 data: more body accepted than Content-Length"
+    return None
+
+
 def oracle_full(line, out):
     if line.startswith(("target ", "norm ")):
         return oracle_url(line, out)
+    if line.startswith("h2data "):
+        return h2_oracle(line, out) if out not in ("<crash>", "bad-op") else None
     if out == "<crash>" or out == "bad-op":
         return None
     c = Case(line.split(" P ")[0])
@@ -861,6 +893,13 @@ def classify(line, out):
     t = line.split(" ", 3)
     if t[0] in ("target", "norm"):
         return "url:%s:%s" % (t[1], out.split(" ")[0])
+    if t[0] == "h2data":
+        tt = line.split(" ")
+        frames = tt[3].split(",")
+        return "h2data:%s:cl%s:f%d:pad%d:seg%s:b%s" % (
+            " ".join(out.split(" ")[1:4:2]), "-" if tt[1] == "-1" else "+", min(len(frames), 5),
+            any(f.split(".")[1] != "-1" for f in frames), tt[4].split(",")[0] if len(tt[4]) < 6 else "mix",
+            size_class(sum(int(f.split(".")[0]) for f in frames)))
     parsed, res = parse_obs(out)
     if parsed is None:
         return "%s:rejected:%s" % (t[0], res[:8])
@@ -1171,6 +1210,38 @@ def gw_cases(ctx):
     return lines
 
 
+def h2_cases(ctx):
+    """HTTP/2 request bodies: DATA frame sizes, padding, END_STREAM placement, Content-Length, segmentation"""
+    rng = ctx.rng
+    lines = []
+    segs = ["0", "0", "9", "9", "10", "1", "2", "7", "16384", "8192", "4096", "9,1", "9,5000", "3,6,1"]
+    for i in range(6000 if ctx.quick else 60000):
+        n = rng.choice([0, 1, 2, 5, 17, 100, 1000, 16128, 16384, 20000, 65535, 65536, 65537, 70000, 200000])
+        if rng.random() < 0.5:
+            n = rng.randint(0, 40)
+        frames, left = [], n
+        while True:
+            pad = -1 if rng.random() < 0.5 else rng.choice([0, 1, 2, 7, 100, 255])
+            room = 16384 - (1 + pad if pad >= 0 else 0)
+            d = min(left, rng.choice([0, 1, 2, 9, 100, 1000, 8192, room, room]) if left else 0)
+            left -= d
+            last = left == 0 and (rng.random() < 0.8 or len(frames) > 40)
+            frames.append([d, pad, 1 if last else 0])
+            if last:
+                break
+        cl = -1 if rng.random() < 0.4 else n
+        k = rng.random()
+        if k < 0.06:
+            cl = n + rng.choice([1, -1, 5]) if n else 1           # Content-Length mismatch
+            cl = max(cl, 0)
+        elif k < 0.10 and len(frames) > 1:
+            frames[rng.randrange(len(frames) - 1)][2] = 1         # END_STREAM too early
+        seg = rng.choice(segs) if rng.random() < 0.8 else ",".join(str(rng.choice([1, 2, 9, 10, 100, 5000, 16393])) for _ in range(rng.randint(2, 5)))
+        body = "r%d.%d" % (n, rng.randint(0, 99999)) if n else "-"
+        lines.append("h2data %d %s %s %s" % (cl, body, ",".join("%d.%d.%d" % tuple(f) for f in frames), seg))
+    return lines
+
+
 def url_cases(ctx):
     """query delimiter under every normalisation option set (defect D4: last '?' taken)"""
     rng = ctx.rng
@@ -1218,6 +1289,8 @@ def run(ctx):
     glines = add_parsed(exe, gw_cases(ctx))
     ctx.differential("gw_handle_subrequest (client framing, streaming modes, read/write timing)", [exe], "cgi",
                      glines, oracle, classify, canon=canon)
+    ctx.differential("HTTP/2 DATA -> request body (frame sizes, padding, segmentation)", [exe], "cgi", h2_cases(ctx),
+                     oracle, classify)
     uexe, uerr = C.build_harness("h_url")
     if uexe is None:
         ctx.broken.append({"kind": "harness-build", "names": ["h_url"], "log": uerr[-3000:]})
@@ -1243,8 +1316,9 @@ def replay_line(ctx, rep):
     else:
         exe, err = C.build_harness("h_cgi")
         model = "cgi"
-        base = line.split(" P ")[0]
-        line = add_parsed(exe, [base])[0]       # re-parse with the current tree
+        if not line.startswith("h2data "):
+            base = line.split(" P ")[0]
+            line = add_parsed(exe, [base])[0]       # re-parse with the current tree
     o, rc, e = C.run_lines([exe], [line])
     m, _, _ = C.run_model(model, [line])
     if line.split(" ")[0] in GW_OPS:
